@@ -31,4 +31,8 @@ theorem close_no_wait_of_done : close_waits_for_start true = false := by simp [c
 theorem wait_raises_after_iff (s d : Bool) : wait_for_start_raises_after s d = true ↔ (s = false ∨ d = true) := by
   simp [wait_for_start_raises_after]
 
+/-- sync `close()` sends the goodbyes from every thread that is not the instance's own loop — whether or not that
+thread runs some other event loop (the model's `closeCall true` is this branch) -/
+theorem sync_close_unregisters_off_loop : sync_close_skips_goodbyes false = false := by simp [sync_close_skips_goodbyes]
+
 end Zc.GenFacts.Shutdown
